@@ -1,7 +1,7 @@
 """Shared specification vocabulary (DESIGN.md section 3). Written from the property statements."""
 import z3
 from pyvc import ty as T
-from pyvc.core import V
+from pyvc.core import V, Unsupported
 from pyvc.rules import DDictT
 
 
@@ -122,6 +122,31 @@ def install(eng):
     vc.NoopHashes = T.ObjT("NoopSpecHashes", root="SpecHashes")
     vc.f_sha1 = z3.Function("Sha1", vc.SpecText.sort(), vc.Hash.sort())      # hashlib.sha1(...).hexdigest(): trusted
     eng.fn("Sha1")(lambda e, st, s_: V(vc.Hash, vc.f_sha1(s_.z)))
+    # Sha1(spec) is by definition hashlib.sha1(spec.encode("utf-8")).hexdigest(): the three library steps are
+    # uninterpreted functions, so hash_spec is verified to hash the whole text with exactly this pipeline
+    import hashlib
+    BytesT, ShaObjT = T.Atom("Bytes"), T.Atom("Sha1Obj")
+    f_utf8 = z3.Function("utf8", vc.SpecText.sort(), BytesT.sort())
+    f_shaobj = z3.Function("sha1", BytesT.sort(), ShaObjT.sort())
+    f_hexd = z3.Function("hexdigest", ShaObjT.sort(), vc.Hash.sort())
+    sx_ = vc.SpecText.fresh("s")
+    eng.axioms.append(z3.ForAll([sx_], vc.f_sha1(sx_) == f_hexd(f_shaobj(f_utf8(sx_)))))
+
+    def m_encode(e, bb, a, kw, st, sink, n):
+        enc = a[0] if a else kw.get("encoding")
+        if enc is not None and not (z3.is_string_value(enc.z) and enc.z.as_string().lower().replace("-", "") == "utf8"):
+            raise Unsupported("spec.encode() with an encoding other than utf-8", n)
+        yield st, V(BytesT, f_utf8(bb.recv.z))
+
+    eng.method_rules[("SpecText", "encode")] = m_encode
+
+    def r_sha1(e, args, kw, st, sink, n):
+        if len(args) != 1 or args[0].ty != BytesT:
+            raise Unsupported("hashlib.sha1 of something else than the encoded spec", n)
+        yield st, V(ShaObjT, f_shaobj(args[0].z))
+
+    eng.rules[hashlib.sha1] = r_sha1
+    eng.method_rules[("Sha1Obj", "hexdigest")] = lambda e, bb, a, kw, st, sink, n: iter([(st, V(vc.Hash, f_hexd(bb.recv.z)))])
     HD = T.DictT(vc.Name, vc.Hash)
     f_isfile = eng.const_fn("SpecHashes", "is_file", T.BOOL)
     f_tname = eng.const_fn("Target", "name", vc.Name)
